@@ -32,14 +32,17 @@ all), `catable_fast_bits_position_independent` / `catable_trivial_bits_position_
 
 `CatableBody` is thereby a theorem at the command level for quality 2–9 and at the bit level for quality 2–3 (same bit
 offset).  What remains for C03's 'decodes to the concatenation': the entropy-coding writers of quality 4–9 (their
-round trip is C01MetaBlockFull's `wmbi_*` under the `cmdOK`/`lockstep` delivered here for the foreign state; literal
-context modelling there is what item 4 is for), quality 10/11 (Zopfli) and 0/1 (fragment compressors: no distance
+round trip is C01MetaBlockFull's `wmbi_*`, whose command hypotheses `cmdOK` / `lockstep` / `faithful` are delivered here
+for the foreign state — `catable_block_faithful` —, `copy_len() ≥ 2` holds for LZ77 copies but is not exported by the
+chain, and whose `prev_byte`s agree with the decoder's only because of item 4; literal context modelling is what item 4
+is for), quality 10/11 (Zopfli) and 0/1 (fragment compressors: no distance
 cache, no dictionary — not covered by this model), the chain's own `BlockOK` (ring buffer holds the text), one
 `CreateBackwardReferences` call per meta-block, NPOSTFIX = NDIRECT = 0, and re-reading a compressed meta-block at a
 different BIT offset (the concatenator shifts bits; the reader's alignment argument only matters for stored blocks).
 -/
 import BV.Lemmas.CatableReplay
 import BV.Lemmas.CbrOpen
+import BV.Lemmas.ReplayFaithful
 import BV.Model.Catable
 import BV.Props.C01Chain
 
@@ -143,6 +146,24 @@ theorem catable_block_position_independent {H : Type} (ops : HasherOps H) (p : P
   obtain ⟨ring'', hB, hrel''⟩ := decSteps_indep w' 0 0 (maxBackwardLimit p) window' hw mb h' _ _ _ ring' hrel hA
   refine ⟨hok, ?_, ring'', hB, hrel'', hci, hcl'⟩
   exact lockstep_position_independent w' 0 0 (maxBackwardLimit p) window' hw mb hist h' (cache.take 4) ring' _ hrel hlock
+
+/-- **`catable_block_faithful`** — the remaining command hypothesis of the quality ≥ 4 writer theorems
+(`full_metablock_roundtrip`: `faithful`, after every command the decoder's output is history ++ a prefix of the block)
+holds in the foreign state too -/
+theorem catable_block_faithful {H : Type} (ops : HasherOps H) (p : Params) (large : Bool)
+    (data : ByteArray) (k tail : Nat) (hist mb : Bytes) (lo : Nat)
+    (hb : BlockOK p large data k tail hist mb lo) (hops : OpsOK (SlotOK noWords) ops p data k)
+    (numBytes position : Nat) (h0 : H) (cache : List Int) (lastInsertLen numLiterals : Nat) (res : Result H)
+    (hpos : position = hist.length + lastInsertLen) (hmb : mb.length = lastInsertLen + numBytes)
+    (hc : CacheI32 cache) (hcl : 4 ≤ cache.length)
+    (h : createBackwardReferences ops p numBytes position h0 cache lastInsertLen numLiterals = some res)
+    (h' : Bytes) (ring' : List Int) (hrel : RingRel (maxBackwardLimit p) (cache.take 4) ring')
+    (w' : WordOracle) (window' : Nat) (hw : maxBackwardLimit p ≤ window') :
+    faithful w' 0 0 window' mb (h' ++ hist) ⟨h' ++ hist, ring', 0⟩ (closeMetaBlock res.cmds res.lastInsertLen) := by
+  obtain ⟨_, _, ring'', hdec, _⟩ := catable_block_position_independent ops p large data k tail hist mb lo hb hops numBytes
+    position h0 cache lastInsertLen numLiterals res hpos hmb hc hcl h h' ring' hrel w' window' hw
+  rw [← List.append_assoc] at hdec
+  exact faithful_of_final w' 0 0 window' mb (h' ++ hist) _ ⟨h' ++ hist, ring', 0⟩ ring'' (by simp) hdec
 
 /-! ## a whole member -/
 
